@@ -36,6 +36,10 @@ def check_reinsert(prog: Program, L: Ledger, rule: str) -> None:
     p_atoms, p_new, p_idx = ri.params()[:3]
     body = [s for s in ri.body() if not (isinstance(s, ast.Expr) and isinstance(s.value, ast.Constant))]
     loops = [s for s in body if isinstance(s, ast.For)]
+    if len(loops) == 1 and norm(loops[0].iter).startswith(f"{p_new}.arrays"):
+        L.violation(rule, "reinsert_atoms:all-arrays", f"{rel}:{ri0.node.lineno}", "no loop over every per-atom array of the target: only a fixed selection of arrays is rebuilt",
+                    "an array (tags, momenta, charges, custom) keeps its shortened length: Atoms becomes inconsistent", "all-arrays")
+        return
     if len(loops) != 2:
         raise AnalysisError(f"reinsert_atoms: expected two loops (existing arrays, new-only arrays), found {len(loops)}")
     l1, l2 = loops
@@ -43,8 +47,15 @@ def check_reinsert(prog: Program, L: Ledger, rule: str) -> None:
         raise AnalysisError("reinsert_atoms: early exit is outside the recognised fragment")
     M = _Reinsert(f"{p_atoms}.arrays")
     M.run(body[: body.index(l1)])
-    between = body[body.index(l1) + 1 : body.index(l2)]
+    between = body[body.index(loops[0]) + 1 : body.index(l2)]
     it1 = norm(M.subst(l1.iter))
+    items_forms = (f"{p_atoms}.arrays.items()", f"list({p_atoms}.arrays.items())", f"tuple({p_atoms}.arrays.items())")
+    if it1 in items_forms and isinstance(l1.target, ast.Tuple) and len(l1.target.elts) == 2 and all(isinstance(e_, ast.Name) for e_ in l1.target.elts):
+        # for name, values in atoms.arrays.items(): `values` stands for atoms.arrays[name]
+        kname, vname = l1.target.elts[0].id, l1.target.elts[1].id
+        M.env[vname] = ast.Subscript(value=ast.Attribute(value=ast.Name(id=p_atoms, ctx=ast.Load()), attr="arrays", ctx=ast.Load()), slice=ast.Name(id=kname, ctx=ast.Load()), ctx=ast.Load())
+        l1 = ast.For(target=ast.Name(id=kname, ctx=ast.Store()), iter=l1.iter, body=l1.body, orelse=l1.orelse, lineno=l1.lineno)
+        it1 = f"{p_atoms}.arrays"
     L.check(it1 in (f"{p_atoms}.arrays", f"{p_atoms}.arrays.keys()", f"list({p_atoms}.arrays)", f"list({p_atoms}.arrays.keys())", f"tuple({p_atoms}.arrays)"), rule, "reinsert_atoms:all-arrays", f"{rel}:{l1.lineno}",
             f"first loop iterates `{it1}`, not every per-atom array of the target", "an array (tags, momenta, charges, custom) keeps its shortened length: Atoms becomes inconsistent", it1)
     if not isinstance(l1.target, ast.Name) or l1.orelse:
